@@ -382,6 +382,70 @@ impl Sim {
 		Ok(chosen.len())
 	}
 
+	/// (added for C15) Take the transactions `mine` would put into the next block for the same `take` mask
+	/// (conflict-free, valid on the head; the rest stays in the mempool) without mining them.
+	pub fn select_mempool(&mut self, take: u16) -> Vec<Transaction> {
+		let pool = self.world.node.take_mempool();
+		let mut chosen: Vec<Transaction> = vec![];
+		let mut keep: Vec<Transaction> = vec![];
+		let mut used_inputs: BTreeSet<Vec<u8>> = BTreeSet::new();
+		for (i, tx) in pool.into_iter().enumerate() {
+			let want = i >= 16 || (take >> i) & 1 == 1;
+			let srec = self
+				.slates
+				.iter()
+				.position(|s| s.tx.as_ref().map(|t| t.kernels()[0].excess == tx.kernels()[0].excess).unwrap_or(false));
+			if self.never_mine_cancelled {
+				if let Some(si) = srec {
+					if self.slates[si].is_cancelled() {
+						continue;
+					}
+				}
+			}
+			if !want || (srec.is_some() && srec == self.frozen) {
+				keep.push(tx);
+				continue;
+			}
+			let inputs_v: Vec<grin_core::core::transaction::CommitWrapper> = tx.inputs().into();
+			let ins: Vec<Vec<u8>> = inputs_v.iter().map(|i| i.commitment().0.to_vec()).collect::<Vec<_>>();
+			let conflict = ins.iter().any(|c| used_inputs.contains(c));
+			let valid = if conflict { Err("conflicts with another selected tx".to_string()) } else { self.world.chain.validate_tx(&tx).map_err(|e| format!("{:?}", e)) };
+			match valid {
+				Ok(()) => {
+					for c in ins {
+						used_inputs.insert(c);
+					}
+					chosen.push(tx);
+				}
+				Err(e) => {
+					if let Some(si) = srec {
+						self.slates[si].rejected_by_chain = Some(e.clone());
+					}
+					self.note(format!("   chain rejected posted tx: {}", e));
+				}
+			}
+		}
+		self.world.node.with(|s| s.mempool = keep);
+		chosen
+	}
+
+	/// (added for C15) Mine one block on the head holding `txs` with a reward output the caller obtained itself
+	/// (e.g. from its own `build_coinbase` calls); the protocol ledger is updated as in `mine`. Returns the height.
+	pub fn mine_with_reward(&mut self, txs: Vec<Transaction>, rew: (grin_core::core::Output, grin_core::core::TxKernel)) -> Result<u64, String> {
+		let prev = self.world.head_header();
+		let b = match self.world.build_block(&prev, &txs, rew).and_then(|b| self.world.process(b.clone()).map(|_| b)) {
+			Ok(b) => b,
+			Err(e) => {
+				// nothing was mined: the transactions go back to the mempool
+				self.world.node.with(|s| s.mempool.extend(txs));
+				return Err(e);
+			}
+		};
+		let h = b.header.height;
+		self.mark_mined(&txs, h);
+		Ok(h)
+	}
+
 	pub fn slatepack_address(&self, w: usize) -> Result<SlatepackAddress, String> {
 		self.w(w)
 			.owner
